@@ -197,7 +197,33 @@ class Pool:
             self.free.append(i)
 
 
+def mem_available_gb():
+    try:
+        for line in open("/proc/meminfo"):
+            if line.startswith("MemAvailable:"):
+                return int(line.split()[1]) / (1 << 20)
+    except Exception:
+        pass
+    return 1e9
+
+
+def admit(min_free_gb=None, max_wait=3600):
+    """memory-aware admission: this machine has no swap, and a CBMC run that cannot allocate
+    dies (reported as inconclusive); do not start another harness while little memory is free
+    and others are still running"""
+    if min_free_gb is None:
+        min_free_gb = float(os.environ.get("VERIF_MIN_FREE_GB", "12"))
+    t0 = time.time()
+    while time.time() - t0 < max_wait:
+        with RUN_LOCK:
+            busy = len(RUNNING)
+        if busy == 0 or mem_available_gb() >= min_free_gb or ABORT.is_set():
+            return
+        time.sleep(5)
+
+
 def run_harness(name, mod, slot, cap, logdir, extra=()):
+    admit()
     tdir = os.path.join(TARGET_ROOT, "w%d" % slot)
     cmd = ["cargo", "kani", "--harness", "%s::%s" % (mod, name), "--exact", "-Z", "stubbing", "-v",
            "--target-dir", tdir] + list(extra)
